@@ -236,8 +236,8 @@ def check(shape, params, acc, sample=False, shared=None, ffvars=None):
         else:
             for key, (length, const) in expected.items():
                 params_got = got[key]
-                if (len(params_got) != 3 or params_got[0] != bond_type or abs(float(params_got[1]) - length) > 1e-9
-                        or abs(float(params_got[2]) - const) > 1e-9 * max(1.0, const)):
+                if (len(params_got) != 3 or params_got[0] != bond_type or not abs(float(params_got[1]) - length) <= 1e-9
+                        or not abs(float(params_got[2]) - const) <= 1e-9 * max(1.0, const)):
                     problems.append(('c15:wrong-parameters', 'bond %r has parameters %r, expected [%r, %r, %r]' % (
                         sorted(key), list(params_got), bond_type, length, const)))
                     break
